@@ -28,6 +28,7 @@ def gen(seed, idx, tier):
         field_kinds=("zero", "const", "ramp", "pw", "sin", "sin"),
         screening=rnd.random() < 0.12,
         p_remesh=0.25,
+        p_overlap=0.3,
     )
     return scn
 
